@@ -1,0 +1,11 @@
+//! Verification hooks (cargo feature `verif-hooks`, off by default).
+//!
+//! This module only *exposes* crate-internal items to the external verification
+//! harness (read access and thin call-through wrappers).  It adds no behaviour and
+//! nothing in the crate depends on it.
+#![allow(missing_docs)]
+#![allow(non_snake_case)]
+
+// modules that are `pub` inside the crate-private `solver::core`
+pub use crate::solver::core::cones;
+pub use crate::solver::core::kktsolvers;
